@@ -199,19 +199,41 @@ func main() {
 			o.Fail("func function.diffEnv not found")
 		} else {
 			var depths []int
+			var calls []string
 			ast.Inspect(fd.Body, func(n ast.Node) bool {
-				if c, ok := n.(*ast.CallExpr); ok {
-					if sel, ok := c.Fun.(*ast.SelectorExpr); ok && (sel.Sel.Name == "EqualDepth" || sel.Sel.Name == "DiffDepth") && len(c.Args) == 3 {
+				c, ok := n.(*ast.CallExpr)
+				if !ok {
+					return true
+				}
+				sel, ok := c.Fun.(*ast.SelectorExpr)
+				if !ok {
+					return true
+				}
+				pkg, _ := sel.X.(*ast.Ident)
+				if pkg == nil || (pkg.Name != "starlark" && pkg.Name != "diff") {
+					return true
+				}
+				// every comparison and diff diffEnv makes, with its depth budget ("default" when the call has none:
+				// starlark.Equal and diff.Diff use starlark.CompareLimit)
+				switch sel.Sel.Name {
+				case "EqualDepth", "DiffDepth":
+					budget := "?"
+					if len(c.Args) == 3 {
 						if bl, ok := c.Args[2].(*ast.BasicLit); ok {
+							budget = bl.Value
 							if n, err := strconv.Atoi(bl.Value); err == nil {
 								depths = append(depths, n)
 							}
 						}
 					}
+					calls = append(calls, "("+lib.LeanString(pkg.Name+"."+sel.Sel.Name)+", "+lib.LeanString(budget)+")")
+				case "Equal", "Diff", "Compare", "CompareDepth":
+					calls = append(calls, "("+lib.LeanString(pkg.Name+"."+sel.Sel.Name)+", \"default\")")
 				}
 				return true
 			})
 			o.Def("diffEnvDepths", "List Nat", lib.LeanNatList(depths))
+			o.Def("diffEnvCalls", "List (String × String)", "["+strings.Join(calls, ", ")+"]")
 			// the outcomes of diffEnv (every return with the condition it sits under) and the part that turns the
 			// mapping diff into the reason
 			keep := func(s ast.Stmt) bool {
